@@ -229,6 +229,8 @@ class TransformationTensor(ProjectiveTensor, ABC):
             return super().__mul__(other)
 
     def __pow__(self, power: int, modulo: int | None = None) -> Tensor:
+        if isinstance(power, np.integer):
+            power = int(power)
         if power == 0:
             if self.free_indices == 0:
                 return identity(self.dim)
